@@ -110,14 +110,14 @@ let compress s =
     Printf.sprintf "H%d:%d" (String.length s) !acc
   end
 
-let str_fetcher (s : fetcher) =
+let str_fetcher ?(timers = true) (s : fetcher) =
   let tm = List.sort zcmp (List.concat_map (function Some d -> [d] | None -> []) [s.f_wait_timer; s.f_timeout_timer]) in
   compress (Printf.sprintf "now=%s W=%s T=%s S=%s A=%s D=%s F=%s R=%s L=%s U=%s tm=%s"
     (string_of_z s.f_now) (str_map str_zs s.f_waitlist) (str_map string_of_z s.f_waittime) (str_map str_zs s.f_waitslots)
     (str_map str_zs s.f_announces) (str_map str_zs s.f_announced) (str_map string_of_z s.f_fetching)
     (str_map (fun r -> str_zl r.rq_hashes ^ "/" ^ str_zs r.rq_stolen ^ "/" ^ string_of_z r.rq_time) s.f_requests)
     (str_map str_zs s.f_alternates) (str_zs s.f_under)
-    (match tm with [] -> "-" | l -> String.concat "," (List.map string_of_z l)))
+    (if not timers then "x" else match tm with [] -> "-" | l -> String.concat "," (List.map string_of_z l)))
 
 let str_hvclass = function HVVoteSet -> "VS" | HVErrType -> "ERRTYPE" | HVUnwanted -> "UNWANTED"
 
@@ -253,7 +253,7 @@ let () =
       | "TS" :: _ -> print_endline "OK"   (* real-time sequence on the reactor: direct oracles only *)
       | ["FI"] -> fet := f0; fet_dead := false
       | ["FK"; h] -> fet := w_known (zs_add (z h) (!fet).f_known) !fet
-      | "FN" :: _ | "FE" :: _ | "FD" :: _ | "FT" :: _ ->
+      | "FN" :: _ | "FE" :: _ | "FD" :: _ | "FT" :: _ | "FDX" :: _ ->
         let ev, k = match toks with
           | ["FN"; k; p; hs] -> ENotify (z p, ints_of_tok hs), z k
           | ["FE"; k; p; d; l] ->
@@ -261,12 +261,17 @@ let () =
                 List.map (fun t -> match String.split_on_char ':' t with
                     | [a; b] -> (z a, z b) | _ -> failwith ("bad tx verdict " ^ t)) (String.split_on_char ',' l) in
             EEnqueue (z p, txs, d = "1"), z k
-          | ["FD"; k; p] -> EDrop (z p), z k
+          | ["FD"; k; p] | ["FDX"; k; p] -> EDrop (z p), z k
           | ["FT"; k; d] -> EAdvance (z d), z k
           | l -> failwith ("bad fetcher line: " ^ String.concat " " l) in
         if !fet_dead then print_endline "DEAD"
         else (match fstep k !fet ev with
-            | FOk s' -> fet := s'; print_endline (str_fetcher s' ^ (if fetcher_ok s' then "" else " INCONSISTENT"))
+            | FOk s' ->
+              fet := s';
+              (* the quadratic consistency check is for the ordinary (small) states *)
+              let small = List.length s'.f_waitlist + List.length s'.f_announced + List.length s'.f_fetching < 300 in
+              let line = str_fetcher ~timers:(List.hd toks <> "FDX") s' in
+              print_endline (line ^ (if (not small) || fetcher_ok s' then "" else " INCONSISTENT"))
             | FCrash -> fet_dead := true; print_endline "CRASH")
       | "B" :: rest ->
         let (_, m) = split_at_sep [] rest in
